@@ -137,6 +137,20 @@ def sprinkle_evq(rng, ops, aid, spec, prob=0.15, each=0.25):
     return out
 
 
+def share_problem(rng, actors, a0, a1, max_iters=30):
+    """Make actor a1 a second solver on the very Problem object of a0 (a parameter study: other r / eps / budget)."""
+    s0 = actors[a0]
+    s1 = {"kind": "solver", "objective": s0["objective"], "listeners": [],
+          "params": {"r": gen_r(rng), "eps": gen_eps(rng, s0["objective"]["N"]), "itersLimit": gen_iters(rng, max_iters),
+                     "evolventDensity": s0["params"].get("evolventDensity", 10), "refineSolution": False}}
+    for k in ("lower", "upper", "bounds_type", "holder"):
+        if k in s0:
+            s1[k] = s0[k]
+    s0["problem_obj"] = s1["problem_obj"] = "shared:Q"
+    actors[a1] = s1
+    return s1
+
+
 def gen_clock(rng):
     c = {"start": 1.7e9, "eval_cost": [0.001, float("%.3g" % rng.uniform(0.01, 3.0))]}
     if rng.random() < 0.3:
